@@ -143,3 +143,26 @@ PROPS["C18"] = dict(
           "(ii) byte strings {empty, NUL, newlines, invalid UTF-8, all 256 bytes, JSON-hostile, sizes 1..70000 (thorough: 4 MiB), random} through client get, get-version, Store handle, "
           "store restarted from its cache with the service unreachable, file-backed client on the cache file, and both gets after a server restart"),
 )
+
+
+def store_shards(tier, seed, search=False):
+    k, n, steps = (6, 150, 25) if tier == "quick" else (16, 1500, 40)
+    return [Shard("store", ["-seed", str(s), "-n", str(n), "-steps", str(steps)], driver="store", binary="storetrace") for s in seeds(seed, k)]
+
+
+STORE_RULE = ("store lifetimes under testing/synctest virtual time against a scripted service and a recording cache: construction with declared-name sets (duplicates, "
+              "empty name, none), caches {none, empty, valid documents with arbitrary stamps, 16 malformed shapes, failing Read, failing Write}, both client kinds, per-name "
+              "failure scripts (0..15 failures, endless failures, hang) and deadlines {none, 0, 5 ms .. 20 s}; then handles, reads, lookups (ok/fail/not found), explicit and "
+              "background polls with per-request failures and mid-poll events (service change, handle taken, read), clock advances past the expiry age, service changes "
+              "(new version, activation back, delete), close and restart from the cache with a live or dead service; state observed through a read-only verif-tag snapshot; "
+              "a case is (operation, outcome, client kind, cache class, rounds / mid-event / drops / updates)")
+STORE_TRUST = BASE_TRUST + ["testing/synctest virtual time (go1.26.8); the scripted StoreClient honours its context; encoding/json for the cache document (classified by decoding "
+                            "with the documented shape); golang.org/x/sync/singleflight; the order of Go map iteration is an oracle taken from the request log"]
+for _p in ("C10", "C11", "C13", "C19"):
+    PROPS[_p] = dict(shards=store_shards, trusted=STORE_TRUST, rule=STORE_RULE,
+                     assumptions=["sequential store histories (concurrent readers are C12's)", "whole-second wall clock for expiry", "the client returns when its context ends"])
+PROPS["C13"]["shards"] = lambda tier, seed, search=False: store_shards(tier, seed, search) + fs_shards(["cache"])
+PROPS["C11"]["diverge"] = lambda l: l.startswith("DIVERGE poll")
+PROPS["C10"]["diverge"] = lambda l: l.startswith("DIVERGE new") or l.startswith("DIVERGE init")
+PROPS["C19"]["diverge"] = lambda l: l.startswith("DIVERGE poll_state") or l.startswith("DIVERGE read") or l.startswith("DIVERGE poll_requests")
+PROPS["C13"]["diverge"] = lambda l: "flush" in l or l.startswith("DIVERGE new") or l.startswith("DIVERGE fs") or l.startswith("DIVERGE fault") or l.startswith("DIVERGE crash")
